@@ -224,7 +224,7 @@ def conds(tier):
     q = tier == "quick"
     cs = []
     shapes = [(1, 1), (2, 1), (1, 2), (2, 2), (3, 2), (2, 3), (3, 3)] if q else \
-        [(1, 1), (2, 1), (1, 2), (2, 2), (3, 2), (2, 3), (3, 3), (4, 3), (2, 4), (3, 4), (4, 4)]
+        [(1, 1), (2, 1), (1, 2), (2, 2), (3, 2), (2, 3), (3, 3), (4, 3), (2, 4), (3, 4)]
     for (m, n) in shapes:
         big = m * n >= 9
         cs.append(Cond("structure-m%d-n%d" % (m, n), "harness.c02:structure",
@@ -242,7 +242,7 @@ def conds(tier):
                    [P("f", "int", 0, 3), P("gf", "bool"), P("gft", "bool"), P("si", "int", 0, 3), P("mh", "bool"),
                     P("bm", "bool"), P("bn", "bool"), P("er", "bool"), P("ex", "int", 0, 4), P("et", "int", 0, 4),
                     P("hx", "bool"), P("ht", "bool"), P("sx", "bool"), P("st", "bool"), P("blk", "int", 1, 3)],
-                   pre=["(f != 0 or not er)"] + (["si < 2 and et == ex and blk == 1 and hx == ht and sx == st"] if q else []),
+                   pre=["(f != 0 or not er)"] + (["si < 2 and et == ex and blk == 1 and hx == ht and sx == st"] if q else ["hx == ht and (bn or blk == 1) and si < 2 and ex > 0 and et > 0"]),
                    shard=["f", "gf", "gft", "mh"] + ([] if q else ["bm", "bn"]), timeout=600 if q else 2400, functions=FUNCS))
     cs.append(Cond("tabs", "harness.c02:tabs", [P("length", "int", None, None)], timeout=60,
                    functions=["treeoutput.export_tabs"], note="unbounded integer length"))
